@@ -48,4 +48,16 @@ CHECKS['C03'] = {'engine': 'EX', 'design_ref': 'DESIGN.md 6 C03',
     'technique': 'bounded exhaustive metamorphic enumeration: every estimator (functions and classes) x every lattice / family data vector x every scalar of the alphabet, f(c x) against |c|^p f(x)',
     'text': 'For every estimator, every data vector of the lattices and fixed families and every scalar of the alphabet, the scaled call is compared with the prescribed power of |c| times the unscaled result for every returned quantity.',
     'note': _EX_NOTE}
+CHECKS['C04'] = {'engine': 'EX', 'design_ref': 'DESIGN.md 6 C04',
+    'technique': 'bounded exhaustive metamorphic enumeration: 12 classes x lattice / family data x NFFT parities x EVERY shift bin, conjugation, real-vs-complex declaration, time reversal',
+    'text': 'For every class, data vector, NFFT and every integer shift m the modulated-data estimate is compared with the rotated estimate; conjugation, one-sided = 2 x half and time-reversal relations likewise.',
+    'note': _EX_NOTE}
+CHECKS['C05'] = {'engine': 'EX', 'design_ref': 'DESIGN.md 6 C05',
+    'technique': 'bounded exhaustive metamorphic enumeration: 12 classes x data x EVERY admissible NFFT1 up to 2N+3 x multipliers {2,3,4}; common-grid values and bit-identical model parameters; NFFT setter on live objects',
+    'text': 'For every class, data vector and every admissible NFFT1 the estimate on the c*NFFT1 grid is compared at all common frequencies and the model parameters must be identical.',
+    'note': _EX_NOTE}
+CHECKS['C08'] = {'engine': 'EX', 'design_ref': 'DESIGN.md 6 C08',
+    'technique': 'bounded exhaustive enumeration: 12 classes x data x sampling alphabet x NFFT x scale_by_freq; arma2psd over every coefficient vector of a 5-letter alphabet up to length 3 against direct polynomial evaluation',
+    'text': 'Every class for every sampling frequency and both scale_by_freq values; arma2psd for every lattice coefficient vector, variance, sampling and NFFT, compared with direct evaluation of (rho/T)|B|^2/|A|^2.',
+    'note': _EX_NOTE}
 NOT_BUILT = {}
